@@ -35,7 +35,72 @@ var symExternals = map[string]externalFn{}
 func (i *interpreter) noteStore(a *value) {
 	if i.eng != nil && i.eng.shared != nil {
 		if tag, ok := i.eng.shared[a]; ok {
-			i.eng.sharedWrite(a, tag)
+			i.eng.sharedWrite(a, tag+" (written in "+i.topFunc()+")")
+		}
+	}
+}
+
+// noteWriteSlice records a write by an intrinsic into every element of b.
+func (i *interpreter) noteWriteSlice(b []value) {
+	if i.eng == nil || i.eng.shared == nil {
+		return
+	}
+	for k := range b {
+		i.noteStore(&b[k])
+	}
+}
+
+func (i *interpreter) topFunc() string {
+	if n := len(i.stack); n > 0 {
+		return i.stack[n-1].String()
+	}
+	return "?"
+}
+
+// shareGraph tags every memory cell reachable from v as shared.
+func (i *interpreter) shareGraph(tag string, v value, seen map[*value]bool) {
+	e := i.eng
+	if e.shared == nil {
+		e.shared = map[*value]string{}
+	}
+	switch x := v.(type) {
+	case *value:
+		if x == nil || seen[x] {
+			return
+		}
+		seen[x] = true
+		e.shared[x] = tag
+		i.shareGraph(tag, *x, seen)
+	case structure:
+		for k := range x {
+			if !seen[&x[k]] {
+				seen[&x[k]] = true
+				e.shared[&x[k]] = tag
+				i.shareGraph(tag, x[k], seen)
+			}
+		}
+	case array:
+		for k := range x {
+			if !seen[&x[k]] {
+				seen[&x[k]] = true
+				e.shared[&x[k]] = tag
+				i.shareGraph(tag, x[k], seen)
+			}
+		}
+	case []value:
+		full := x[:cap(x)]
+		for k := range full {
+			if !seen[&full[k]] {
+				seen[&full[k]] = true
+				e.shared[&full[k]] = tag
+				i.shareGraph(tag, full[k], seen)
+			}
+		}
+	case iface:
+		i.shareGraph(tag, x.v, seen)
+	case *closure:
+		for _, ev := range x.Env {
+			i.shareGraph(tag, ev, seen)
 		}
 	}
 }
